@@ -8,6 +8,7 @@ specification: Spec/Bmp.lean (standard BMP reader, meaning of PDF samples).
 import PdfVerif.Lemmas.Bmp
 import PdfVerif.Lemmas.ImageName
 import PdfVerif.Lemmas.Inline
+import PdfVerif.Lemmas.InlineTotal
 import PdfVerif.Lemmas.InlineDict
 
 namespace PdfVerif.Props.C18
@@ -352,5 +353,216 @@ example : (match processID (writerObjs ⟨false, true, true, false, true⟩ .gra
     | .ok p => some (p.data, p.pushEI, p.consumed, inlineSize p.dict)
     | .error _ => none) = some ([65, 13], true, 6, some 2) := by
   decide +kernel
+
+/-! ## Round 6 — the end-marker scan on every byte string -/
+
+/-- **inline_scan_total.** The exact rule, for EVERY input (payloads that contain `EI` bytes included) and every
+    size hint: when `get_inline_data` returns `(d, n)` it has consumed `n ≤ |input|` bytes; these are `body E I ws`
+    with `ws` a white-space byte — or the whole input `body E I` when the marker is the last token —, the result is
+    what `finish` makes of `body` (cut at the hinted size when exactly one end-of-line follows it, else strip one
+    end-of-line), and the data is a prefix of `body`: nothing is ever invented, and `input.drop n` — the operators
+    after the image — is left for the parser untouched. -/
+theorem C18_inline_scan_total (L : Option Nat) (input d : Bytes) (n : Nat)
+    (h : getInlineDataLen EI L input = some (d, n)) :
+    n ≤ input.length ∧ ∃ body,
+      ((∃ ws, isSpace ws = true ∧ input.take n = body ++ [69, 73, ws]) ∨ (n = input.length ∧ input = body ++ [69, 73])) ∧
+      finish L body n = some (d, n) ∧ d <+: body := by
+  unfold getInlineDataLen at h
+  cases hs : scan EI 0 input 0 with
+  | none => simp [hs] at h
+  | some r =>
+    obtain ⟨m, eof⟩ := r
+    obtain ⟨k, hk1, hk2, hk3, hk4⟩ := scan_sound input 0 [] 0 m eof (by decide)
+      ⟨fun h => absurd h (by decide), fun h => absurd h (by decide)⟩ hs
+    simp only [Nat.zero_add] at hk1
+    subst hk1
+    simp only [hs, EI_length] at h
+    cases eof with
+    | false =>
+      obtain ⟨pre, ws, hws, hpre⟩ := hk3 rfl
+      simp only [List.nil_append] at hpre
+      have hbody : (input.take m).take ((input.take m).length - (2 + 1)) = pre := by
+        rw [hpre]
+        have : (pre ++ [69, 73, ws]).length - (2 + 1) = pre.length := by simp
+        rw [this, List.take_left]
+      simp only [Bool.false_eq_true, if_false, hbody] at h
+      have hfin : finish L pre m = some (d, n) := by
+        rw [← h]; cases L <;> rfl
+      obtain ⟨hpf, hmn⟩ := finish_prefix L pre d m n hfin
+      subst hmn
+      exact ⟨hk2, pre, Or.inl ⟨ws, hws, hpre⟩, hfin, hpf⟩
+    | true =>
+      obtain ⟨hkl, pre, hpre⟩ := hk4 rfl
+      simp only [List.nil_append] at hpre
+      subst hkl
+      have hbody : (input.take input.length).take ((input.take input.length).length - (2 + 0)) = pre := by
+        rw [List.take_length, hpre]
+        have : (pre ++ [69, 73]).length - (2 + 0) = pre.length := by simp
+        rw [this, List.take_left]
+      simp only [if_true, hbody] at h
+      have hfin : finish L pre input.length = some (d, n) := by
+        rw [← h]; cases L <;> rfl
+      obtain ⟨hpf, hmn⟩ := finish_prefix L pre d _ n hfin
+      subst hmn
+      exact ⟨Nat.le_refl _, pre, Or.inr ⟨rfl, hpre⟩, hfin, hpf⟩
+
+/-- Non-vacuity, with a payload that contains the bytes `EI` (followed by `x`, so no marker) and ends in `E`. -/
+example : getInlineDataLen EI none [1, 69, 73, 120, 69, 10, 69, 73, 32, 81] = some ([1, 69, 73, 120, 69], 9) := by
+  decide +kernel
+
+/-- **inline_scan_ws_rule.** Which `EI` ends the data: for a payload-with-separator `body` that contains no
+    `EI`+white space and whose last byte is neither `E` nor `I` — any separator will do: blank, tab, LF, CR, NUL, or
+    none at all after such a data byte — the scanner stops right after the `EI ws` that follows.  (Generalises
+    `C18_inline_scan` from the three end-of-line forms to every separator.) -/
+theorem C18_inline_scan_ws_rule (L : Option Nat) (body rest : Bytes) (ws : UInt8) (hws : isSpace ws = true)
+    (hno : NoMarker body) (hlast : ∀ c, body.getLast? = some c → c ≠ 69 ∧ c ≠ 73) :
+    getInlineDataLen EI L (body ++ EI ++ ws :: rest) = finish L body (body.length + 3) := by
+  have hp := scan_prefix body 0 [] (EI ++ ws :: rest) 0 (by decide)
+    ⟨fun h => absurd h (by decide), fun h => absurd h (by decide)⟩ (by simpa using hno)
+  obtain ⟨hscan, _, _⟩ := hp
+  have hzero := run_zero_of_last body hno hlast
+  unfold getInlineDataLen
+  have hinput : body ++ EI ++ ws :: rest = body ++ (EI ++ ws :: rest) := by simp
+  rw [hinput, hscan, hzero]
+  have : EI ++ ws :: rest = 69 :: 73 :: ws :: rest := rfl
+  rw [this, scan_marker ws rest _ hws]
+  simp only [Nat.zero_add, EI_length, Bool.false_eq_true, if_false]
+  have htake : List.take (body.length + 3) (body ++ 69 :: 73 :: ws :: rest) = body ++ [69, 73, ws] := by
+    have : body ++ 69 :: 73 :: ws :: rest = (body ++ [69, 73, ws]) ++ rest := by simp
+    rw [this]
+    have hl : body.length + 3 = (body ++ [69, 73, ws]).length := by simp
+    rw [hl, List.take_left]
+  rw [htake]
+  have : (body ++ [69, 73, ws]).length - (2 + 1) = body.length := by simp
+  rw [this, List.take_left]
+  cases L <;> rfl
+
+example : getInlineDataLen EI none ([7, 8, 32] ++ EI ++ 9 :: [81]) = some ([7, 8, 32], 6) := by decide +kernel
+
+/-- **inline_scan_pseof.** Input without `EI`+white space that does not end in `EI` either: PSEOF (the image is
+    dropped by the caller), for every size hint. -/
+theorem C18_inline_scan_pseof (L : Option Nat) (input : Bytes) (hno : NoMarker input)
+    (hend : ¬ ∃ pre, input = pre ++ [69, 73]) : getInlineDataLen EI L input = none := by
+  have hp := scan_prefix input 0 [] [] 0 (by decide)
+    ⟨fun h => absurd h (by decide), fun h => absurd h (by decide)⟩ (by simpa using hno)
+  obtain ⟨hscan, hinv, _⟩ := hp
+  unfold getInlineDataLen
+  simp only [List.append_nil] at hscan
+  rw [hscan]
+  have : scan EI (run 0 input) [] (0 + input.length) = none := by
+    simp only [scan]
+    rw [if_neg]
+    intro h2
+    exact hend (by simpa using hinv.1 h2)
+  rw [this]
+
+example : getInlineDataLen EI (some 2) [1, 2, 10, 69, 73] ≠ none ∧ getInlineDataLen EI (some 2) [1, 2, 10, 69] = none := by
+  decide +kernel
+
+/-- The limit of the rule (why `hlast` is there): the automaton does not restart on `E`, so an `E` directly in
+    front of `EI` hides the marker — `E E I ␣` is scanned to the end without a match. -/
+theorem C18_inline_scan_norestart_cex : getInlineDataLen EI none [69, 69, 73, 32] = none ∧
+    getInlineDataLen EI none [69, 10, 69, 73, 32] = some ([69], 5) := by decide +kernel
+
+/-! ## Round 6 — abbreviations of inline-image keys and values (ISO 32000-1 tables 93 and 94) -/
+
+/-- Table 94, filter names: (abbreviation, full name). -/
+def iso94Filters : List (Bytes × Bytes) :=
+  [([65, 72, 120], [65, 83, 67, 73, 73, 72, 101, 120, 68, 101, 99, 111, 100, 101]),
+   ([65, 56, 53], [65, 83, 67, 73, 73, 56, 53, 68, 101, 99, 111, 100, 101]),
+   ([76, 90, 87], [76, 90, 87, 68, 101, 99, 111, 100, 101]),
+   ([70, 108], [70, 108, 97, 116, 101, 68, 101, 99, 111, 100, 101]),
+   ([82, 76], [82, 117, 110, 76, 101, 110, 103, 116, 104, 68, 101, 99, 111, 100, 101]),
+   ([67, 67, 70], [67, 67, 73, 84, 84, 70, 97, 120, 68, 101, 99, 111, 100, 101]),
+   ([68, 67, 84], [68, 67, 84, 68, 101, 99, 111, 100, 101])]
+
+/-- Table 94, colour space names an inline image may use directly: (abbreviation, full name). -/
+def iso94ColorSpaces : List (Bytes × Bytes) :=
+  [([71], [68, 101, 118, 105, 99, 101, 71, 114, 97, 121]),
+   ([82, 71, 66], [68, 101, 118, 105, 99, 101, 82, 71, 66]),
+   ([67, 77, 89, 75], [68, 101, 118, 105, 99, 101, 67, 77, 89, 75]),
+   ([73], [73, 110, 100, 101, 120, 101, 100])]
+
+/-- **abbrev_tables.** Every pair of table 93 that the image plumbing reads — W/Width, H/Height,
+    BPC/BitsPerComponent, CS/ColorSpace, IM/ImageMask (`LTImage.__init__`), F/Filter, DP/DecodeParms
+    (`PDFStream.get_filters`), F/Filter for the end marker (`do_keyword`, after the round-6 `fix:`) — is accepted in
+    both spellings, abbreviation first: the key tuples REGENERATED from the Python source are exactly the pairs the
+    model (`InlineDict.getAny d [kW, kWidth]` …) uses.  Every filter pair of table 94 is recognised under both names
+    by one `LITERALS_*_DECODE` tuple, every colour space pair has the same component count under both names, and the
+    colour space literals `export_image` compares with are the model's.  (D/Decode and I/Interpolate are never read.) -/
+theorem C18_abbrev_tables :
+    keysWidth = [kW, kWidth] ∧ keysHeight = [kH, kHeight] ∧ keysBits = [kBPC, kBitsPerComponent] ∧
+    keysColorSpace = [kCS, kColorSpace] ∧ keysImageMask = [kIM, kImageMask] ∧ keysFilter = [kF, kFilter] ∧
+    keysEosFilter = [kF, kFilter] ∧ [[68, 80], [68, 101, 99, 111, 100, 101, 80, 97, 114, 109, 115]] <+: keysDecodeParms ∧
+    (∀ p ∈ iso94Filters, ∃ row ∈ filterNames, p.1 ∈ row ∧ p.2 ∈ row) ∧
+    (∀ p ∈ iso94ColorSpaces, componentsOf p.1 = componentsOf p.2 ∧ (componentsOf p.1).isSome = true) ∧
+    litInlineGray = nG ∧ litInlineRGB = nRGB ∧ litDeviceGray = nDeviceGray ∧ litDeviceRGB = nDeviceRGB ∧
+    litDeviceCMYK = nDeviceCMYK := by
+  refine ⟨by decide, by decide, by decide, by decide, by decide, by decide, by decide, by decide, by decide, by decide,
+    by decide, by decide, by decide, by decide, by decide⟩
+
+/-- The end marker does not depend on the spelling of the key: `/F` and `/Filter`, a name or an array starting with
+    a name, give the same marker (no `/F` entry elsewhere in the dictionary). -/
+theorem C18_eos_both_keys (f : Bytes) (rest : List Val) (d : Dict)
+    (h1 : lookup d kF = none) :
+    eosOf ((kFilter, .name f) :: d) = eosOf ((kF, .name f) :: d) ∧
+    eosOf ((kFilter, .arr (.name f :: rest)) :: d) = eosOf ((kF, .arr (.name f :: rest)) :: d) := by
+  have hne : (kFilter == kF) = false := by decide
+  have l1 : ∀ v, lookup ((kFilter, v) :: d) kF = none := by
+    intro v; simp only [lookup, List.find?_cons, hne] at h1 ⊢; exact h1
+  have l2 : ∀ v, lookup ((kFilter, v) :: d) kFilter = some v := by
+    intro v; simp [lookup]
+  have l3 : ∀ v, lookup ((kF, v) :: d) kF = some v := by
+    intro v; simp [lookup]
+  constructor <;> simp only [eosOf, getAny, l1, l2, l3]
+
+example : eosOf [(kFilter, .name nASCII85Decode)] = .ok [126, 62] ∧ eosOf [(kF, .name nA85)] = .ok [126, 62] ∧
+    eosOf [(kFilter, .arr [.name nA85, .name [70, 108]])] = .ok [126, 62] ∧ eosOf [(kFilter, .name [70, 108])] = .ok [69, 73] := by
+  refine ⟨?_, ?_, ?_, ?_⟩ <;> rfl
+
+/-! ## Round 6 — the branch selection of `export_image` as a decision table -/
+
+/-- One row of the decision table: an order-free condition on (plausibility, filters, bits, colour space) for each
+    of the nine branches.  `enc` = the data stays encoded (DCT / JPX last, or JBIG2 anywhere), `bm` = a bitmap kind. -/
+def Row (b : Branch) (im : ImgIn) : Prop :=
+  let pl := plausible im.w im.h im.bits = true
+  let last := im.filters.getLast?
+  let enc := last = some Flt.dct ∨ last = some Flt.jpx ∨ Flt.jbig2 ∈ im.filters
+  let bm := im.bits = 1 ∨ (im.bits = 8 ∧ (isRGB im.cs = true ∨ isGray im.cs = true))
+  match b with
+  | .undecoded => ¬ pl
+  | .jpeg => pl ∧ last = some Flt.dct
+  | .jpx => pl ∧ last = some Flt.jpx
+  | .jbig2 => pl ∧ last ≠ some Flt.dct ∧ last ≠ some Flt.jpx ∧ Flt.jbig2 ∈ im.filters
+  | .bmp1 => pl ∧ ¬ enc ∧ im.bits = 1
+  | .bmp24 => pl ∧ ¬ enc ∧ im.bits = 8 ∧ isRGB im.cs = true
+  | .bmp8 => pl ∧ ¬ enc ∧ im.bits = 8 ∧ isRGB im.cs = false ∧ isGray im.cs = true
+  | .bytes => pl ∧ ¬ enc ∧ ¬ bm ∧ im.filters = [Flt.flate]
+  | .raw => pl ∧ ¬ enc ∧ ¬ bm ∧ im.filters ≠ [Flt.flate]
+
+/-- **branch_table.** The table is total and its rows are pairwise disjoint: for every image exactly one row
+    holds, and it is the row of the branch the `if … elif` chain of `export_image` takes. -/
+theorem C18_branch_table (im : ImgIn) : Row (branchOf im) im ∧ ∀ b, Row b im → b = branchOf im := by
+  unfold branchOf
+  repeat' split
+  all_goals
+    refine ⟨by simp_all [Row], fun b hb => ?_⟩
+    cases b <;> simp_all [Row]
+
+/-- **export_by_branch.** `export_image` is "select the branch, then do what that branch does": extension, content
+    and the `(bytes_per_line, bits)` arguments of the bitmap writer are functions of the selected row alone. -/
+theorem C18_export_by_branch (im : ImgIn) (existing : List Bytes) :
+    exportImage im existing = exportBranch (branchOf im) im existing := by
+  unfold exportImage branchOf
+  repeat' split
+  all_goals simp_all [exportBranch, bmpArgsOf]
+
+/-- Non-vacuity: one image per row. -/
+example : (([⟨[], .gray, false, 64, 1, 1, [], []⟩, ⟨[.flate, .dct], .rgb, false, 8, 1, 1, [], []⟩,
+      ⟨[.jpx], .rgb, false, 8, 1, 1, [], []⟩, ⟨[.jbig2], .gray, false, 1, 1, 1, [], []⟩,
+      ⟨[.lzw], .other, false, 1, 9, 1, [], []⟩, ⟨[], .inlRgb, false, 8, 2, 1, [], []⟩,
+      ⟨[.a85], .gray, false, 8, 2, 1, [], []⟩, ⟨[.flate], .cmyk, false, 8, 1, 1, [], []⟩,
+      ⟨[], .none, false, 4, 1, 1, [], []⟩] : List ImgIn).map branchOf) =
+    [.undecoded, .jpeg, .jpx, .jbig2, .bmp1, .bmp24, .bmp8, .bytes, .raw] := by decide +kernel
 
 end PdfVerif.Props.C18
